@@ -147,6 +147,18 @@ macro_rules! define_histogram_common {
             pub fn range_max(&self) -> f64 {
                 self.range[LEN]
             }
+
+            #[cfg(feature = "verif-hooks")]
+            #[doc(hidden)]
+            pub fn __verif_from_parts(range: [f64; LEN + 1], bin: [u64; LEN]) -> Self {
+                Self { range, bin }
+            }
+
+            #[cfg(feature = "verif-hooks")]
+            #[doc(hidden)]
+            pub fn __verif_parts(&self) -> ([f64; LEN + 1], [u64; LEN]) {
+                (self.range, self.bin)
+            }
         }
 
         /// Iterate over all `(range, count)` pairs in the histogram.
